@@ -58,6 +58,7 @@ func drvCase(c *ctx, r *rng.R, path string, bind int, arr []arrival, special str
 			rs := newTCPResponder("127.0.0.1", steps)
 			rs.stall = special == "stall"
 			rs.reset = special == "reset"
+			rs.resetAfterRequest = special == "reset-after-request"
 			endpoint, closeFn, received = rs.addr(), rs.close, rs.received
 		}
 	case "any":
@@ -210,6 +211,9 @@ func streamDrv(c *ctx) {
 		jobs = append(jobs, job{path, 0, []arrival{{8, "valid"}}, "none", r.U64(), true, 0})
 	}
 	jobs = append(jobs, job{"tcp", 0, []arrival{}, "stall", r.U64(), false, 0})
+	// a TCP controller that takes the request and then resets the connection: one request, an error at once
+	jobs = append(jobs, job{"tcp", 0, []arrival{}, "reset-after-request", r.U64(), false, T})
+	jobs = append(jobs, job{"tcp", 0, []arrival{{8, "valid"}}, "reset-after-request", r.U64(), true, T})
 	N := 40 * c.scale
 	for i := 0; i < N; i++ {
 		path := rng.Pick(r, "broadcast", "udp", "tcp")
